@@ -196,7 +196,8 @@ def main(argv=None):
     if level == "model_checking":
         cov["states"] = tot["states"]
         # monitor-only checks have no reference transition graph: count the executions the monitor judged
-        cov["transitions"] = tot["transitions"] or int(extra.get("rows_checked", 0))
+        # (rows_checked = event rows the monitors judged; a few driver kinds of a monitor check also count transitions of their own)
+        cov["transitions"] = max(tot["transitions"], int(extra.get("rows_checked", 0)))
         cov["traces_validated_against_impl"] = tot["execs"]
     for k, v in extra.items():
         cov[k] = v
